@@ -361,6 +361,13 @@ class FnWeaver:
         segs = [('\n', 'repo', self.rel, self.line_at(off)), ('\n'.join(lines) + '\n', 'tmpl', self.tmpl_file, tline)]
         self.edits.append((off, off, segs))
 
+    def add_end(self, lines, tline):
+        """proof block just before the closing brace of the body (for functions whose body ends with a statement)"""
+        p = self.parts
+        off = self.src.toks[p['body_close']][1]
+        segs = [('\n'.join(lines) + '\n', 'tmpl', self.tmpl_file, tline)]
+        self.edits.append((off, off, segs))
+
     # -- loops
     def loops(self):
         """token indices of loop keywords (for/while/loop) in the body, in source order,
@@ -635,6 +642,8 @@ def weave(unit_path):
                     info['includes'].append(sarg)
                 elif sd == 'entry':
                     fw.add_entry(blk, blk_line)
+                elif sd == 'end':
+                    fw.add_end(blk, blk_line)
                 elif sd == 'loop':
                     fw.add_loop_spec(int(sarg), blk, blk_line)
                 elif sd == 'forwhile':
